@@ -1,0 +1,56 @@
+//! Verification taps (only compiled with `--cfg anydb_verif`): the library reports its
+//! durability events, layout transitions, lock acquisitions, named pause points and reader
+//! accesses to a sink installed by the external verification harness.  Without a sink every
+//! tap is a no-op; nothing here changes the library's behaviour.
+use std::sync::RwLock;
+
+#[derive(Debug, Clone)]
+pub enum Event {
+    /// Bytes copied into a memory map (`file`: 0 = data file, 1 = regions file).
+    MmapWrite { file: u8, offset: usize, len: usize },
+    /// `set_len` on a file.
+    SetLen { file: u8, len: usize },
+    /// `msync(MS_ASYNC)` on a range of a map (`len == usize::MAX`: the whole map).
+    FlushAsync { file: u8, offset: usize, len: usize },
+    /// `fdatasync` / `fsync` on a file.
+    SyncData { file: u8 },
+    /// `fallocate(PUNCH_HOLE)` on the data file.
+    Punch { offset: usize, len: usize },
+    /// A layout transition: insert_hole, remove_hole, pending, promote, reserve, take_reserved,
+    /// insert_region, remove_region.
+    Layout { kind: &'static str, start: usize, size: usize },
+    /// A lock is about to be acquired by the current thread.
+    Lock { class: &'static str, instance: usize, write: bool },
+    /// A named point at which the harness may hold the current thread.
+    Pause { name: &'static str },
+    /// Bytes about to be fetched through a `Reader` (absolute mmap range) together with the
+    /// reader's snapshot of its region.
+    Access { region_start: usize, region_len: usize, offset: usize, len: usize },
+}
+
+pub type Sink = Box<dyn Fn(&Event) + Send + Sync>;
+
+static SINK: RwLock<Option<Sink>> = RwLock::new(None);
+
+pub fn set_sink(sink: Option<Sink>) {
+    *SINK.write().unwrap() = sink;
+}
+
+#[inline]
+pub fn emit(e: Event) {
+    if let Ok(g) = SINK.read()
+        && let Some(f) = g.as_ref()
+    {
+        f(&e)
+    }
+}
+
+#[inline]
+pub fn lock(class: &'static str, instance: usize, write: bool) {
+    emit(Event::Lock { class, instance, write })
+}
+
+#[inline]
+pub fn pause(name: &'static str) {
+    emit(Event::Pause { name })
+}
